@@ -3050,7 +3050,8 @@ def cbcheck(
         linestr = "  ------  ------  ------  ------  ------  ------\n"
         f.write("\nMode No.  Frequency (Hz) " + dirstr)
         f.write("--------  -------------- " + linestr)
-        writer.vecwrite(f, frm, num, frq_filtered, effmass_percent_filtered)
+        if len(num) > 0:  # (`em_filt` may leave no mode to print)
+            writer.vecwrite(f, frm, num, frq_filtered, effmass_percent_filtered)
         f.write(("\nTotal Effective Mass:    " + "  {:6.2f}" * 6 + "\n").format(*summ))
     else:
         f.write("\n\nThere are no modes for the modal-effective-mass check.\n")
